@@ -11,6 +11,7 @@ from . import values as _v
 
 
 AXIOM_ARRAYS = False      # set by pyvc.verify for the refutation pass
+AST_CLASS_IDS = {c: k for k, c in enumerate(sorted((c for c in vars(ast).values() if isinstance(c, type) and issubclass(c, ast.AST)), key=lambda c: c.__name__))}
 
 
 class Undecided(Exception):
@@ -1050,6 +1051,12 @@ class Engine:
                 return z3.BoolVal(nm == "str")
             if isinstance(v, VInt):
                 return z3.BoolVal(nm in ("int",))
+            if isinstance(v, VObj) and nm.startswith("ast.") and isinstance(getattr(ast, nm[4:], None), type):
+                # AST classes: a type tag constrained by the REAL class hierarchy of the running ast module (classes are disjoint
+                # unless one is a subclass of the other)
+                cls = getattr(ast, nm[4:])
+                ids = [AST_CLASS_IDS[c] for c in AST_CLASS_IDS if isinstance(c, type) and issubclass(c, cls)]
+                return z3.Or(*[tag(v.t) == i_ for i_ in ids]) if ids else z3.BoolVal(False)
             if isinstance(v, VObj):
                 f = self.uf("isinst_" + nm.replace(".", "_"), [OBJ], B)
                 return f(v.t)
@@ -1648,7 +1655,13 @@ class Engine:
         def havoc(env_):
             e2 = dict(env_)
             for m in mod:
-                e2[m] = fresh_val(m, shape_of(env_[m]))
+                if isinstance(env_[m], VSeq) and env_[m].shape is None:
+                    # an empty list literal of unknown element type modified in the loop
+                    if not self.unit.lenient:
+                        raise Undecided(f"list `{m}` of unknown element shape is modified in a loop (declare it in local_shapes)", st.lineno)
+                    e2[m] = VObj(fresh("havoc", OBJ))
+                else:
+                    e2[m] = fresh_val(m, shape_of(env_[m]))
             return e2
 
         envh = havoc(env)
@@ -1723,7 +1736,13 @@ class Engine:
         def havoc(env_):
             e2 = dict(env_)
             for m in mod:
-                e2[m] = fresh_val(m, shape_of(env_[m]))
+                if isinstance(env_[m], VSeq) and env_[m].shape is None:
+                    # an empty list literal of unknown element type modified in the loop
+                    if not self.unit.lenient:
+                        raise Undecided(f"list `{m}` of unknown element shape is modified in a loop (declare it in local_shapes)", st.lineno)
+                    e2[m] = VObj(fresh("havoc", OBJ))
+                else:
+                    e2[m] = fresh_val(m, shape_of(env_[m]))
             return e2
 
         envh = havoc(env)
